@@ -9,7 +9,27 @@ EXCLUSION_NOTES = []
 _EXCL = []
 
 
+def fixed_ids():
+    """ids of known findings that have been fixed in /repo (known/C01-fixed.txt, one id per line): their generator
+    exclusions are lifted and their former witnesses become ordinary regression programs.  C01_ASSUME_FIXED=K14,K15 adds
+    ids for trial runs against a patched worktree."""
+    ids = set()
+    p = os.path.join(vlib.ROOT, 'known', 'C01-fixed.txt')
+    if os.path.exists(p):
+        for line in open(p):
+            line = line.split('#')[0].strip()
+            if line:
+                ids.add(line.split()[0])
+    ids |= set(x for x in os.environ.get('C01_ASSUME_FIXED', '').split(',') if x)
+    return ids
+
+
+FIXED = fixed_ids()
+
+
 def _ex(pattern, note):
+    if note.split()[0] in FIXED:
+        return
     _EXCL.append(re.compile(pattern).search if isinstance(pattern, str) else pattern)
     EXCLUSION_NOTES.append(note)
 
@@ -238,7 +258,8 @@ def model_check(ctx):
     info = {'evidence': {}, 'mc_results': []}
     vlib._speccopy(ctx)
     w = max(2, min(6, vlib.JOBS // 2))
-    gencfgs = ['JsGen_flow_quick.cfg', 'JsGen_expr_quick.cfg'] if quick else ['JsGen_flow.cfg', 'JsGen_expr.cfg', 'JsGen_nullish.cfg']
+    gencfgs = ['JsGen_flow_quick.cfg', 'JsGen_expr_quick.cfg', 'JsGen_nest_quick.cfg'] if quick else \
+        ['JsGen_flow.cfg', 'JsGen_expr.cfg', 'JsGen_nullish.cfg', 'JsGen_nest.cfg']
     nsim = 40 if quick else 1500          # (every walk checks ~20 complete successor programs)
 
     def laws():
@@ -261,10 +282,12 @@ def model_check(ctx):
     info['evidence']['laws_instantiations_checked'] = rl['distinct']
     info['mc_results'].append(rl)
     progs = []
+    info['by_cfg'] = {}
     for cfg, r in zip(gencfgs, rg):
         ps = _programs_from_tlc(r['out'])
         info['evidence'][cfg] = dict(states=r['distinct'], programs=len(ps))
         info['mc_results'].append(r)
+        info['by_cfg'][cfg.split('_')[1].split('.')[0]] = ps
         progs += ps
     sims = _programs_from_tlc(rs['out'])
     if not sims:
@@ -281,14 +304,20 @@ def fragment_programs(ctx, specinfo):
     quick = ctx.quick()
     seen = set()
     out = []
-    ex = specinfo.get('exhaustive', [])
     sims = sorted(specinfo.get('simulated', []))
-    if quick:
-        ex = vlib.sample(ex, 350, ctx.rnd)
-        sims = vlib.sample(sims, 250, ctx.rnd)
-    else:
-        ex = vlib.sample(ex, 6000, ctx.rnd)
-        sims = vlib.sample(sims, 4000, ctx.rnd)
+    # seeded sample of every exhaustively enumerated production set (quick) / larger samples (thorough)
+    quota = dict(flow=130, expr=90, nest=130, nullish=0) if quick else dict(flow=2000, expr=1500, nullish=2000, nest=2500)
+    ex = []
+    for name, ps in sorted(specinfo.get('by_cfg', {}).items()):
+        ps = sorted(ps)
+        if name == 'nest':
+            # half of the nesting sample: an if-else whose THEN-branch is itself an if or a loop (dangling else)
+            hot = [p for p in ps if any(p[i] == 'ifelse' and p[i + 2] in ('if', 'for2') for i in range(len(p) - 2))]
+            ex += vlib.sample(hot, quota.get(name, 0) // 2, ctx.rnd)
+            ex += vlib.sample(ps, quota.get(name, 0) - quota.get(name, 0) // 2, ctx.rnd)
+        else:
+            ex += vlib.sample(ps, quota.get(name, 0), ctx.rnd)
+    sims = vlib.sample(sims, 120 if quick else 4000, ctx.rnd)
     if os.environ.get('C01_FRAG_N'):
         ex, sims = ex[: int(os.environ['C01_FRAG_N'])], sims[: int(os.environ['C01_FRAG_N'])]
     used = {}
@@ -581,7 +610,7 @@ def precedence_matrix(ctx):
     for pi, pre in enumerate(OPERANDS):
         ex = exprs
         if quick:
-            ex = [e for e in exprs if rnd.random() < 0.12]
+            ex = [e for e in exprs if rnd.random() < 0.06]
         for i in range(0, len(ex), 10):
             body = '\n'.join(_wrap(e) for e in ex[i:i + 10])
             progs.append(pre + '\n' + body)
@@ -1849,7 +1878,7 @@ def string_literals(ctx):
     for e in ESCAPES:
         for fo in FOLLOW:
             for cx in CONTEXTS:
-                if quick and rnd.random() > 0.06:
+                if quick and rnd.random() > 0.03:
                     continue
                 body = cx % (e + fo)
                 for q in ("'", '"'):
@@ -1859,7 +1888,7 @@ def string_literals(ctx):
     # pairs of escapes
     for e1 in ESCAPES:
         for e2 in ESCAPES:
-            if quick and rnd.random() > 0.03:
+            if quick and rnd.random() > 0.015:
                 continue
             for q in ("'", '"'):
                 b = re.sub(r'(?<!\\)' + q, '\\\\' + q, e1 + e2)
@@ -1876,7 +1905,7 @@ def template_literals(ctx):
         if e in ('$', '{'):
             pass
         for fo in ['', '0', 'a', '{', "'", '"', '\\n', '$', '\\\\']:
-            if quick and rnd.random() > 0.15:
+            if quick and rnd.random() > 0.08:
                 continue
             if e.endswith('$') and fo == '{':
                 continue
@@ -1931,7 +1960,7 @@ def regexes(ctx):
     forms = ['/\\%s/', '/[\\%s]/', '/[a\\%s]/', '/[\\%s-z]/', '/[!-\\%s]/', '/[^\\%s]/', '/[\\%sa]/', '/a\\%s+/', '/[a\\%sz]/', '/[a-c\\%se]/', '/[\\%s\\%s]/', '/\\%s\\%s/']
     for ch in chars:
         for fm in forms:
-            if quick and rnd.random() > 0.2:
+            if quick and rnd.random() > 0.1:
                 continue
             body = fm.replace('%s', ch)
             for fl in ('', 'g', 'u', 'i', 'y', 's', 'm'):
@@ -1974,7 +2003,7 @@ def literal_programs(ctx):
     stmts = []
     for n in nums:
         for c in NUM_CONTEXTS:
-            if c != 'out(%s)' and rnd.random() > (0.08 if ctx.quick() else 0.6):
+            if c != 'out(%s)' and rnd.random() > (0.04 if ctx.quick() else 0.6):
                 continue
             stmts.append(c.replace('%s', n))
     stmts = [x for x in stmts if not excluded(x)]
@@ -3373,7 +3402,7 @@ def corpus_programs(ctx):
     vlib.run(['node', '--expose-internals', '--stack-size=8000', os.path.join(vlib.ROOT, 'js', 'c01_corpus.js'), p] + files, timeout=300)
     fns = sorted(set(o['src'] for o in vlib.read_ndjson(p)))
     ctx.rnd.shuffle(fns)
-    out += fns[: 150 if ctx.quick() else 6000]
+    out += fns[: 80 if ctx.quick() else 6000]
     return out
 
 
@@ -3396,6 +3425,97 @@ def numgen_lexemes(ctx):
     return dict(mc=r, lexemes=sorted(lex[: 150 if ctx.quick() else 2500]))
 
 
+# ===================================================================================================
+# statement-nesting matrix (dangling else): every statement form S that can END in an if without else, nested to depth 3,
+# as the braced THEN-branch of an outer if-else; branch bodies that cannot become expressions (loops, var, try, switch,
+# break/continue) and ones that can; every branch calls out(k) and the function is run under all truth assignments.
+_NEST_BODIES = [
+    'for(var i%d=0;i%d<1;i%d++)out(%d)', 'out(%d)', 'try{out(%d)}catch(e){}', 'switch(%d){case %d:out(%d)}', '{var v%d=%d;out(v%d)}',
+    'for(var j%d=0;j%d<2;j%d++){if(j%d)break;out(%d)}', 'for(var k%d=0;k%d<2;k%d++){if(k%d)continue;out(%d)}', 'while(w++<%d)out(%d)',
+    'do out(%d);while(0)', 'throw out(%d)',
+]
+
+
+def _nest_body(n, kind):
+    t = _NEST_BODIES[kind % len(_NEST_BODIES)]
+    return t.replace('%d', str(n))
+
+
+class _Nest:
+    """statements that END in an if without else, with fresh out() numbers; choices drawn from rnd"""
+
+    def __init__(self, rnd):
+        self.rnd = rnd
+        self.n = 0
+
+    def body(self):
+        self.n += 1
+        return _nest_body(self.n, self.rnd.randrange(len(_NEST_BODIES)))
+
+    def cond(self):
+        return self.rnd.choice(['c2', 'c3', 'c2&&c3', '!c3', 'c2||c3'])
+
+    NFORMS = 15
+
+    def form(self, fi, d):
+        """form number fi (0..NFORMS-1); forms >= 4 nest another form of depth d-1 (chosen at random)"""
+        sub = (lambda: self.form(self.rnd.randrange(self.NFORMS if d > 1 else 4), d - 1))
+        self.n += 1
+        k = self.n
+        sm = (lambda b: b if b.endswith('}') else b + ';')
+        if fi == 0:
+            return 'if(%s)%s' % (self.cond(), self.body())
+        if fi == 1:
+            return 'if(c2)%selse if(c3)%s' % (sm(self.body()), self.body())
+        if fi == 2:
+            return 'if(c2){%s}else if(c3){%s}' % (self.body(), self.body())
+        if fi == 3:
+            return 'if(c2)%selse if(c3)%selse if(c2==c3)%s' % (sm(self.body()), sm(self.body()), self.body())
+        if fi == 4:
+            return 'if(%s)%s' % (self.cond(), sub())
+        if fi == 5:
+            return 'if(c2)%selse %s' % (sm(self.body()), sub())
+        if fi == 6:
+            return 'if(c2){%s}else %s' % (sub(), sub())
+        if fi == 7:
+            return 'for(var n%d=0;n%d<1;n%d++)%s' % (k, k, k, sub())
+        if fi == 8:
+            return 'for(;w++<%d;)%s' % (k, sub())
+        if fi == 9:
+            return 'while(w++<%d)%s' % (k, sub())
+        if fi == 10:
+            return 'for(var p%d in{a:1})%s' % (k, sub())
+        if fi == 11:
+            return 'for(var q%d of[1])%s' % (k, sub())
+        if fi == 12:
+            return 'l%d:%s' % (k, sub())
+        if fi == 13:
+            return 'with(o)%s' % sub()
+        return '{%s%s}' % (sm(self.body()), sub())
+
+
+def nesting_programs(ctx):
+    rnd = ctx.rnd
+    progs = []
+    reps = 1 if ctx.quick() else 8
+    for depth, forms in ((0, range(4)), (1, range(4, _Nest.NFORMS)), (2, range(4, _Nest.NFORMS))):
+        for fi in forms:
+            for rep in range(reps * (3 if depth == 0 else 1)):
+                g = _Nest(rnd)
+                inner = g.form(fi, depth)
+                else_body = g.body()
+                for outer in ('if(c1){%s}else %s', 'if(c1){%s}else{%s}', 'if(!c1){%s}else %s'):
+                    fn = 'function t(c1,c2,c3){var w=0,o={};' + (outer % (inner, else_body)) + '}'
+                    progs.append(fn + '\nfor(var m=0;m<8;m++){try{t(m&1,m&2,m&4)}catch(e){out("E")}}')
+    seen = set()
+    out = []
+    for p in progs:
+        if p not in seen:
+            seen.add(p)
+            out.append(p)
+    return out
+
+
 def families(ctx, exe):
     quick = ctx.quick()
     rnd = ctx.rnd
@@ -3404,10 +3524,11 @@ def families(ctx, exe):
         return lst if not quick else [x for x in lst if rnd.random() < frac]
 
     fams = []
-    fams.append(dict(name='tests', sources=some(test_variants(ctx), 0.22), nenv=4 if quick else 6, probe=1))
-    fams.append(dict(name='structural', sources=some(structural_programs(ctx), 0.12), nenv=4 if quick else 6, probe=1))
+    fams.append(dict(name='tests', sources=some(test_variants(ctx), 0.11), nenv=4 if quick else 6, probe=1))
+    fams.append(dict(name='structural', sources=some(structural_programs(ctx), 0.06), nenv=4 if quick else 6, probe=1))
     fams.append(dict(name='precedence', sources=precedence_matrix(ctx), nenv=1, probe=0, batched=True))
     fams.append(dict(name='literals', sources=literal_programs(ctx), nenv=1, probe=1, batched=True))
-    fams.append(dict(name='asi', sources=some(asi_programs(ctx), 0.17), nenv=3 if quick else 5, probe=1))
+    fams.append(dict(name='asi', sources=some(asi_programs(ctx), 0.09), nenv=3 if quick else 5, probe=1))
+    fams.append(dict(name='nesting', sources=nesting_programs(ctx), nenv=1, probe=0))
     fams.append(dict(name='corpus', sources=corpus_programs(ctx), nenv=3 if quick else 4, probe=1))
     return fams
